@@ -450,3 +450,104 @@ Proof.
   apply Forall_cons; [split; [repeat split|]; eexists; split; [vm_compute; reflexivity|]; repeat split|].
   apply Forall_nil.
 Qed.
+
+(* ---- the same document under ANY option set without a measure range (categories, encoding, spine selection):
+        the export is, line by line, a function of that line's token and of (categories, encoding) only *)
+Definition cell_of_tok (o : opts) (t : token) : res string :=
+  if negb (negb (tok_hidden t) && (is_complex t || mem (tok_cat t) (o_cats o))) then Ok (placeholder t)
+  else match tokenize (o_enc o) (o_cats o) None t with
+       | Err e => Err e
+       | Ok s => Ok (if String.eqb s "" then placeholder t else s)
+       end.
+
+Definition header_cell (o : opts) : res string :=
+  if negb (negb (tok_hidden hdr_tok) && (is_complex hdr_tok || mem (tok_cat hdr_tok) (o_cats o))) then Ok (placeholder hdr_tok)
+  else match header_for (o_enc o) hdr_tok with
+       | Err e => Err e
+       | Ok t' => match tokenize (o_enc o) (o_cats o) None t' with
+                  | Err e => Err e
+                  | Ok s => Ok (if String.eqb s "" then placeholder hdr_tok else s)
+                  end
+       end.
+
+(* the four non-agnostic encodings never look at the clef *)
+Definition clef_free (e : encoding) : Prop := forall cats clef t, tokenize e cats clef t = tokenize e cats None t.
+
+Lemma clef_free_kern : clef_free E_normalizedKern. Proof. intros cats clef t. reflexivity. Qed.
+Lemma clef_free_ekern : clef_free E_eKern. Proof. intros cats clef t. reflexivity. Qed.
+Lemma clef_free_bkern : clef_free E_bKern. Proof. intros cats clef t. reflexivity. Qed.
+Lemma clef_free_bekern : clef_free E_bEkern. Proof. intros cats clef t. reflexivity. Qed.
+
+Definition kept_rows (l : list string) : list (list string) :=
+  map (fun x => [x]) (filter (fun x => negb (mem_str x nullish_tokens)) l).
+
+Lemma cell_export_o o d id t x : spine_selected o (Some ("**kern"%string, 0)) = true -> clef_free (o_enc o) ->
+  n_tok (get_node d id) = Some t -> n_header (get_node d id) = Some 1 -> n_tok (get_node d 1) = Some hdr_tok ->
+  match t with THeader _ _ => False | _ => True end -> cell_of_tok o t = Ok x -> append_row d o id = Ok (Some x).
+Proof.
+  intros Hsel Hcf Et Eh E1 Hnh Hx.
+  assert (Ht : header_type d id = Some ("**kern"%string, 0)).
+  { unfold header_type, node_tok. rewrite Et. destruct t; try contradiction; rewrite Eh, E1; reflexivity. }
+  unfold append_row. rewrite Ht, Hsel. cbn [negb]. unfold node_tok. rewrite Et.
+  unfold cell_of_tok in Hx.
+  destruct (negb (negb (tok_hidden t) && (is_complex t || mem (tok_cat t) (o_cats o)))); [injection Hx as <-; reflexivity|].
+  unfold export_node, node_tok. rewrite Et.
+  assert (Hf : header_for (o_enc o) t = Ok t) by (destruct t; try contradiction; reflexivity).
+  rewrite Hf, (Hcf (o_cats o) _ t).
+  destruct (tokenize (o_enc o) (o_cats o) None t) as [s|e]; [|discriminate]. injection Hx as <-. reflexivity.
+Qed.
+
+Lemma header_export_o o d h : spine_selected o (Some ("**kern"%string, 0)) = true -> clef_free (o_enc o) ->
+  n_tok (get_node d 1) = Some hdr_tok -> header_cell o = Ok h -> append_row d o 1 = Ok (Some h).
+Proof.
+  intros Hsel Hcf E1 Hh.
+  assert (Ht : header_type d 1 = Some ("**kern"%string, 0)) by (unfold header_type, node_tok; rewrite E1; reflexivity).
+  unfold append_row. rewrite Ht, Hsel. cbn [negb]. unfold node_tok. rewrite E1.
+  unfold header_cell in Hh.
+  destruct (negb (negb (tok_hidden hdr_tok) && (is_complex hdr_tok || mem (tok_cat hdr_tok) (o_cats o)))); [injection Hh as <-; reflexivity|].
+  unfold export_node, node_tok. rewrite E1.
+  destruct (header_for (o_enc o) hdr_tok) as [t'|e]; [|discriminate].
+  rewrite (Hcf (o_cats o) _ t').
+  destruct (tokenize (o_enc o) (o_cats o) None t') as [s|e]; [|discriminate]. injection Hh as <-. reflexivity.
+Qed.
+
+Lemma root_export_o o d : n_tok (get_node d 0) = None -> n_header (get_node d 0) = None -> append_row d o 0 = Ok None.
+Proof. intros E0 H0. unfold append_row, header_type, node_tok. rewrite E0, H0. reflexivity. Qed.
+
+Lemma rows_of_toks_o o d : spine_selected o (Some ("**kern"%string, 0)) = true -> clef_free (o_enc o) ->
+  n_tok (get_node d 1) = Some hdr_tok -> forall toks outs a,
+  Forall2 (fun t x => match t with THeader _ _ => False | _ => True end /\ cell_of_tok o t = Ok x) toks outs ->
+  (forall j, j < List.length toks -> nth (a + j) (d_stages d) [] = [a + j] /\
+             n_tok (get_node d (a + j)) = nth_error toks j /\ n_header (get_node d (a + j)) = Some 1) ->
+  main_rows d o a (List.length toks) = Ok (kept_rows outs).
+Proof.
+  intros Hsel Hcf E1. induction toks as [|t toks IH]; intros outs a F H; inversion F as [|? x ? outs' [G1 G2] F']; subst; [reflexivity|].
+  cbn [List.length main_rows].
+  destruct (H 0 ltac:(simpl; lia)) as [S0 [T0 H0]]. rewrite Nat.add_0_r in S0, T0, H0. cbn [nth_error] in T0.
+  rewrite S0. cbn [row_of_stage]. rewrite (cell_export_o o d a t x Hsel Hcf T0 H0 E1 G1 G2).
+  rewrite (IH outs' (S a) F').
+  - unfold kept_rows. cbn [filter map]. unfold all_nullish. cbn [forallb]. rewrite andb_true_r.
+    destruct (mem_str x nullish_tokens); reflexivity.
+  - intros j Hj. replace (S a + j) with (a + S j) by lia. apply (H (S j)). simpl. lia.
+Qed.
+
+Theorem export_one_spine_opts o d toks outs h : sp1 toks d ->
+  spine_selected o (Some ("**kern"%string, 0)) = true -> clef_free (o_enc o) -> o_from o = None -> o_to o = None ->
+  header_cell o = Ok h ->
+  Forall2 (fun t x => match t with THeader _ _ => False | _ => True end /\ cell_of_tok o t = Ok x) toks outs ->
+  export_rows d o = Ok (kept_rows (h :: outs)).
+Proof.
+  intros [A B [C1 C2] [R1 R2] D] Hsel Hcf Hfrom Hto Hh F.
+  assert (Ls : List.length (d_stages d) = List.length toks + 2) by (rewrite B, map_length, seq_length; reflexivity).
+  assert (Nth : forall j, j < List.length toks + 2 -> nth j (d_stages d) [] = [j]).
+  { intros j Hj. rewrite B. rewrite (nth_indep _ [] [0]) by (rewrite map_length, seq_length; exact Hj).
+    change [0] with ((fun j0 : nat => [j0]) 0). rewrite map_nth. rewrite seq_nth by exact Hj. reflexivity. }
+  unfold export_rows, export_body. rewrite Hfrom, Hto. cbv iota. cbn [negb].
+  rewrite Ls. replace (S (List.length toks + 2 - 1) - 0) with (S (S (List.length toks))) by lia.
+  cbn [main_rows]. rewrite (Nth 0) by lia. cbn [row_of_stage]. rewrite (root_export_o o d R1 R2).
+  rewrite (Nth 1) by lia. cbn [row_of_stage]. rewrite (header_export_o o d h Hsel Hcf C1 Hh).
+  rewrite (rows_of_toks_o o d Hsel Hcf C1 toks outs 2 F).
+  - unfold kept_rows. cbn [filter map add_terminator]. unfold all_nullish. cbn [forallb]. rewrite andb_true_r.
+    destruct (mem_str h nullish_tokens); reflexivity.
+  - intros j Hj. split; [apply Nth; lia|]. replace (2 + j) with (j + 2) by lia. apply D. exact Hj.
+Qed.
